@@ -49,6 +49,7 @@ package router
 //@   ensures [asked-once] f != nil ==> cbcalls() == old(cbcalls()) + 1 && cbfn(old(cbcalls())) == f
 //@   ensures [locks-as-called] f != nil ==> (forall m *sync.RWMutex :: cbheld(old(cbcalls()), m) == held(m))
 //@   ensures [found] found ==> !isnil(child) && err == nil
+//@   ensures [answer] f != nil ==> child == cbresIface(old(cbcalls()), 0) && err == cbresIface(old(cbcalls()), 1) && found == (!isnil(child) && err == nil)
 //@   modifies nothing
 //@
 //@ func (*router).Get(name) (child, err)
@@ -59,6 +60,9 @@ package router
 //@   ensures [registered] old(has(recv.registry, name)) ==> err == nil && child == old(recv.registry[name]) && cbcalls() == n0 && othersKept(recv, name) && has(recv.registry, name)
 //@   // otherwise the fallback is asked first, then the factory; a factory client is remembered, a fallback client is not
 //@   ensures [fallback-first] !old(has(recv.registry, name)) && recv.fallback != nil ==> cbcalls() >= n0 + 1 && cbfn(n0) == recv.fallback && !cbheld(n0, recv.mu)
+//@   // what the fallback supplies is handed out but not remembered, and not announced
+//@   ensures [fallback-not-remembered] !old(has(recv.registry, name)) && recv.fallback != nil && !isnil(cbresIface(n0, 0)) && isnil(cbresIface(n0, 1)) ==>
+//@   |   err == nil && child == cbresIface(n0, 0) && !has(recv.registry, name) && cbcalls() == n0 + 1
 //@   ensures [not-found] err != nil ==> isnil(child) && !has(recv.registry, name) && othersKept(recv, name)
 //@   ensures [found] err == nil ==> !isnil(child)
 //@   ensures [remembered] err == nil && has(recv.registry, name) ==> child == recv.registry[name]
